@@ -78,31 +78,29 @@ Proof. exact (Resp.resp_idle_thm wvalid wv resp_fixed (CMDResponse_clock_ref wva
 
 Definition in0 (r : Z) : rs_in := {| i_vin := 999; i_size := 77; i_start := 0; i_ready := r |}.
 
-(* <C20-F1> *)
-(* pinned tree: size = 0 is not handled (finding C20-F1), the theorems carry the guard 1 <= k *)
-Lemma resp_stream_k wvalid wv : 1 <= wvalid -> 7 <= wv -> forall c0 value k st r0 env,
-  rs_idle c0 -> 1 <= k -> on st = true -> (Z.to_nat (2 * k + 4) <= ready_count env)%nat ->
+(* C20-F1: repaired in /repo, switched by fixes/C20_switch.py *)
+(* the repaired encoder handles size = 0: the probe evaluates to 0 and the theorems hold for every k >= 0 *)
+Lemma resp_min_size_0 : resp_min_size = 0.
+Proof. vm_compute. reflexivity. Qed.
+
+Lemma resp_stream_k : forall wvalid wv, 1 <= wvalid -> 7 <= wv -> forall c0 value k st r0 env,
+  rs_idle c0 -> 0 <= k -> on st = true -> (Z.to_nat (2 * k + 4) <= ready_count env)%nat ->
   let first := {| i_vin := value; i_size := k; i_start := st; i_ready := r0 |} in
   exists pre post, env = pre ++ post /\
     rs_xfers wvalid wv c0 (first :: pre) = response value (Z.to_nat k) /\
     rs_idle (rs_iter wvalid wv c0 (first :: pre)).
-Proof. intros Hv Hw c0 value k st r0 env Hc Hk. apply resp_stream_gen; auto; pose proof resp_min_size_le1; lia. Qed.
+Proof. intros wvalid wv Hv Hw c0 value k st r0 env Hc Hk. apply resp_stream_gen; auto; rewrite resp_min_size_0; lia. Qed.
 
-Lemma resp_prefix_k wvalid wv : 1 <= wvalid -> 7 <= wv -> forall c0 value k st r0 env,
-  rs_idle c0 -> 1 <= k -> on st = true -> Forall (fun i => i_start i = 0) env ->
+Lemma resp_prefix_k : forall wvalid wv, 1 <= wvalid -> 7 <= wv -> forall c0 value k st r0 env,
+  rs_idle c0 -> 0 <= k -> on st = true -> Forall (fun i => i_start i = 0) env ->
   let first := {| i_vin := value; i_size := k; i_start := st; i_ready := r0 |} in
   exists rest, rs_xfers wvalid wv c0 (first :: env) ++ rest = response value (Z.to_nat k).
-Proof. intros Hv Hw c0 value k st r0 env Hc Hk. apply resp_prefix_gen; auto; pose proof resp_min_size_le1; lia. Qed.
+Proof. intros wvalid wv Hv Hw c0 value k st r0 env Hc Hk. apply resp_prefix_gen; auto; rewrite resp_min_size_0; lia. Qed.
 
-(* size = 0 (the padding outputs of createHILUART): the totalised model shifts left and streams '0's; the real
-   block raises ValueError("negative shift count").  Either way the response is not "=!" *)
-Lemma resp_size0_refuted :
-  exists value env, forall rest,
-    rs_xfers 1 8 rs_reset ({| i_vin := value; i_size := 0; i_start := 1; i_ready := 1 |} :: env) ++ rest <> response value 0.
-Proof.
-  exists 5, (map (fun _ => in0 1) (seq 0 8)). intros rest. vm_compute. intros H. discriminate H.
-Qed.
-(* </C20-F1> *)
+(* size = 0: exactly "=!" *)
+Lemma resp_size0_ok : rs_xfers 1 8 rs_reset ({| i_vin := 5; i_size := 0; i_start := 1; i_ready := 1 |} :: map (fun _ => in0 1) (seq 0 8)) = response 5 0 /\
+  response 5 0 = [61; 33].
+Proof. vm_compute. split; reflexivity. Qed.
 
 (* ------------------------------------------------------------------ instances (the hypotheses are satisfiable) *)
 (* the widths createHILUART uses for a DUT with 8 inputs / 4 outputs *)
